@@ -559,13 +559,14 @@ Qed.
 Lemma del_msg_same dr f s c n sid u req hard : same_modes s c (del_msg dr f s c n sid u req hard).
 Proof.
   unfold del_msg.
-  repeat break_match; try apply same_modes_refl.
+  destruct (hard && is_deleter (user_mode c u)) eqn:EH; destruct (is_reader (user_mode c u)) eqn:ER; cbn [negb andb];
+    repeat break_match; try apply same_modes_refl.
   all: unfold same_modes; cbn [h_st h_ca]; repeat split.
   all: try solve [intros W; eauto 10 with cohdb].
   all: try solve [intros u'; coh_rw; reflexivity].
+  (* what is left is the soft branch: the requester has R, so he has a row *)
   all: intros u'; rewrite (cmodes_pdelid c); [reflexivity|reflexivity|].
-  all: apply andb_false_iff in Heqb; destruct Heqb as [Heqb|Heqb]; apply negb_false_iff in Heqb;
-       eapply flag_member; exact Heqb.
+  all: eapply flag_member; exact ER.
 Qed.
 
 Lemma offline_set_sub_wf f s sid u t m : wf_store s -> wf_store (o_st (offline_set_sub f s sid u t m)).
